@@ -232,46 +232,68 @@ func runC12(c *Ctx) {
 
 	// ---- R8 null for an interface parameter; per-provider lists are consulted
 	c.rule("C12-R8", "GRD: a GlyphLang null becomes the typed zero of the parameter only where a nil value is a value of that parameter: in CallMethod, from the taken edge of `Kind() == reflect.Interface` the reflect.Zero is reached only through a test of the parameter type's NumMethod() (the empty interface takes nil; a Context, an io.Reader or any interface with methods does not - the callee calls a method on it at once and panics, possibly while holding a lock of a library: `q.get(null)` wedges the connection pool). WCS: the per-provider allow-lists (providerMethods, with RegisterProviderMethods for custom providers) are read on the dispatch path: by a function reachable from CallMethod, HasMethod or the evaluator's method-call paths")
-	if cm := c.mustFn("C12-R8", interpPkg, "CallMethod"); cm != nil {
-		isNumMethodIf := func(x ssa.Instruction) bool {
-			iff, ok := x.(*ssa.If)
-			return ok && derivesFrom(iff.Cond, func(v ssa.Value) bool {
-				cl, ok := v.(*ssa.Call)
-				return ok && cl.Call.IsInvoke() && cl.Call.Method.Name() == "NumMethod"
-			})
+	if cm0 := c.mustFn("C12-R8", interpPkg, "CallMethod"); cm0 != nil {
+		// the null handling may sit in CallMethod or in a predicate it asks (acceptsNull(paramType) bool): there the
+		// "zero value is made" event is the predicate answering true
+		nullFns := []*ssa.Function{cm0}
+		eachCall(cm0, func(cl ssa.CallInstruction) {
+			if sf := staticFn(cl); sf != nil && sf != cm0 && sf.Pkg == cm0.Pkg && len(sf.Blocks) > 0 {
+				nullFns = append(nullFns, sf)
+			}
+		})
+		nTests := 0
+		for _, cm := range nullFns {
+			isNumMethodIf := func(x ssa.Instruction) bool {
+				iff, ok := x.(*ssa.If)
+				return ok && derivesFrom(iff.Cond, func(v ssa.Value) bool {
+					cl, ok := v.(*ssa.Call)
+					return ok && cl.Call.IsInvoke() && cl.Call.Method.Name() == "NumMethod"
+				})
+			}
+			isZero := func(x ssa.Instruction) bool {
+				if isCallTo(x, "reflect.Zero") {
+					return true
+				}
+				if cm != cm0 { // in a predicate: answering true (directly, not as the result of the NumMethod comparison)
+					if r, ok := x.(*ssa.Return); ok && len(r.Results) == 1 && isConstBool(r.Results[0], true) {
+						return true
+					}
+				}
+				return false
+			}
+			n := 0
+			for _, b := range cm.Blocks {
+				iff := ifOf(b)
+				if iff == nil {
+					continue
+				}
+				bo, ok := iff.Cond.(*ssa.BinOp)
+				if !ok || bo.Op != token.EQL {
+					continue
+				}
+				isKind := func(v ssa.Value) bool {
+					cl, ok := v.(*ssa.Call)
+					return ok && cl.Call.IsInvoke() && cl.Call.Method.Name() == "Kind"
+				}
+				var k int64
+				var okK bool
+				switch {
+				case isKind(bo.X):
+					k, okK = constInt(bo.Y)
+				case isKind(bo.Y):
+					k, okK = constInt(bo.X)
+				}
+				if !okK || k != 20 /* reflect.Interface */ {
+					continue
+				}
+				n++
+				q := &pathQuery{fn: cm, stop: isNumMethodIf, target: isZero}
+				hit, path := q.from(b.Succs[0], 0)
+				c.ob("C12-R8", interpPkg+".CallMethod#null-for-an-interface-parameter-only-if-it-has-no-methods", bo.Pos(), hit == nil, "a null argument is turned into the nil value of any interface-typed parameter: a provider method that takes a context.Context (or any interface with methods) is called with nil and panics inside the callee - `db.users.where(...).get(null)` dereferences the nil context while database/sql holds its pool mutex, the panic leaves ExecuteRoute and every later query blocks for ever", c.blockPath(path)...)
+			}
+			nTests += n
 		}
-		isZero := func(x ssa.Instruction) bool { return isCallTo(x, "reflect.Zero") }
-		n := 0
-		for _, b := range cm.Blocks {
-			iff := ifOf(b)
-			if iff == nil {
-				continue
-			}
-			bo, ok := iff.Cond.(*ssa.BinOp)
-			if !ok || bo.Op != token.EQL {
-				continue
-			}
-			isKind := func(v ssa.Value) bool {
-				cl, ok := v.(*ssa.Call)
-				return ok && cl.Call.IsInvoke() && cl.Call.Method.Name() == "Kind"
-			}
-			var k int64
-			var okK bool
-			switch {
-			case isKind(bo.X):
-				k, okK = constInt(bo.Y)
-			case isKind(bo.Y):
-				k, okK = constInt(bo.X)
-			}
-			if !okK || k != 20 /* reflect.Interface */ {
-				continue
-			}
-			n++
-			q := &pathQuery{fn: cm, stop: isNumMethodIf, target: isZero}
-			hit, path := q.from(b.Succs[0], 0)
-			c.ob("C12-R8", interpPkg+".CallMethod#null-for-an-interface-parameter-only-if-it-has-no-methods", bo.Pos(), hit == nil, "a null argument is turned into the nil value of any interface-typed parameter: a provider method that takes a context.Context (or any interface with methods) is called with nil and panics inside the callee - `db.users.where(...).get(null)` dereferences the nil context while database/sql holds its pool mutex, the panic leaves ExecuteRoute and every later query blocks for ever", c.blockPath(path)...)
-		}
-		c.ob("C12-R8", interpPkg+".CallMethod#kind-test-for-null-arguments", cm.Pos(), n > 0, "CallMethod no longer distinguishes interface parameters when it meets a null argument: the rule cannot see where nil values are made")
+		c.ob("C12-R8", interpPkg+".CallMethod#kind-test-for-null-arguments", cm0.Pos(), nTests > 0, "CallMethod no longer distinguishes interface parameters when it meets a null argument: the rule cannot see where nil values are made")
 	}
 	{
 		// readers of providerMethods
